@@ -27,6 +27,17 @@ func ctxParamsOf(fn *ssa.Function) []*ssa.Parameter {
 			}
 		}
 	}
+	// a method used only as a method value runs on behalf of the function that binds it: that
+	// function's context is the one the method's state object carries
+	if sites := boundSites[fn]; len(sites) == 1 && directCallers[fn] == 0 {
+		for f := sites[0].Parent(); f != nil; f = f.Parent() {
+			for _, p := range f.Params {
+				if isContextType(p.Type()) {
+					out = append(out, p)
+				}
+			}
+		}
+	}
 	return out
 }
 
@@ -74,6 +85,12 @@ func ctxProvenance(fn *ssa.Function, v ssa.Value) string {
 				if p, ok := a.Root.(*ssa.Parameter); ok && len(a.Sel) == 0 {
 					return walk(p)
 				}
+				// read from a write-once field of the operation's state object: what was stored there
+				if a2 := apOf(x); len(a2.Sel) == 0 {
+					if p, ok := a2.Root.(*ssa.Parameter); ok {
+						return walk(p)
+					}
+				}
 				if al, ok := x.X.(*ssa.Alloc); ok {
 					if sv := singleStore(al); sv != nil {
 						return walk(sv)
@@ -91,6 +108,12 @@ func ctxProvenance(fn *ssa.Function, v ssa.Value) string {
 		case *ssa.FreeVar:
 			if b := freeVarBinding(x); b != nil {
 				return walk(b)
+			}
+		case *ssa.Field:
+			if a := apOf(x); len(a.Sel) == 0 {
+				if p, ok := a.Root.(*ssa.Parameter); ok {
+					return walk(p)
+				}
 			}
 		}
 		return "other:" + rootName(apOf(v).Root)
